@@ -344,3 +344,105 @@ Section Queries.
     unfold g_getAdapters, sys_getAdapters. apply flat_map_ext. intros [n f]. reflexivity.
   Qed.
 End Queries.
+
+(* ------------------------------------------------------------------ inferred arguments = explicit arguments
+   Whatever the inference helpers answer ([gup] _getUtilityProvided, [gn] _getName, [gap]
+   _getAdapterProvided, [gar] _getAdapterRequired: arbitrary oracles), a call that leaves provided /
+   required / name to inference behaves exactly as the model's call with the inferred values passed
+   explicitly; an inference failure (None) is a TypeError that changes nothing. *)
+Section Inference.
+  Variable W : world.
+  Variable hashable : value -> bool.
+  Variable gup : value -> option spec.
+  Variable gn : value -> name.
+  Variable gap : value -> option spec.
+  Variable gar : option value -> option (list (option spec)) -> option (list spec).
+
+  Definition or_infer {A} (given : option A) (inferred : option A) : option A :=
+    match given with Some x => Some x | None => inferred end.
+  Definition name_or (n : name) (inferred : name) : name := if Nat.eqb n 0 then inferred else n.
+
+  Theorem g_registerUtility_inferred st c po n i ev :
+    g_registerUtility W hashable gup gn st (Some c) po n i ev None
+    = match or_infer po (gup c) with
+      | None => (st, RTypeError, [])
+      | Some p => registerUtility W hashable st c p (name_or n (gn c)) i None ev
+      end.
+  Proof.
+    unfold g_registerUtility, or_infer, name_or. cbv beta iota zeta.
+    destruct po as [p|]; [|destruct (gup c) as [p|]; [|reflexivity]];
+      (destruct (Nat.eqb n 0); [exact (g_reg_body W hashable gup st c p (gn c) i None ev)
+                               | exact (g_reg_body W hashable gup st c p n i None ev)]).
+  Qed.
+
+  Theorem g_unregisterUtility_inferred st c n :
+    g_unregisterUtility W hashable gup st (Some c) None n None
+    = match gup c with
+      | None => (st, RTypeError, [])
+      | Some p => unregisterUtility W hashable st (Some c) p n
+      end.
+  Proof.
+    destruct (gup c) as [p|] eqn:E.
+    - rewrite <- (g_unregisterUtility_eq W hashable gup st (Some c) p n).
+      unfold g_unregisterUtility. now rewrite E.
+    - unfold g_unregisterUtility. now rewrite E.
+  Qed.
+
+  Theorem g_registerAdapter_inferred st f ro po n i ev :
+    g_registerAdapter W gn gap gar st f ro po n i ev
+    = match or_infer po (gap f) with
+      | None => (st, RTypeError, [])
+      | Some p => match gar (Some f) ro with
+                  | None => (st, RTypeError, [])
+                  | Some q => registerAdapter W st f (map Some q) p (name_or n (gn f)) i ev
+                  end
+      end.
+  Proof.
+    unfold g_registerAdapter, registerAdapter, conv_req, or_infer, name_or. cbv beta iota zeta.
+    destruct po as [p|]; [|destruct (gap f) as [p|]; [|reflexivity]];
+      (destruct (gar (Some f) ro) as [q|]; [|reflexivity]); rewrite map_conv_some;
+      destruct (Nat.eqb n 0); destruct ev; reflexivity.
+  Qed.
+
+  Theorem g_registerSubscriptionAdapter_inferred st f ro po i ev :
+    g_registerSubscriptionAdapter W gap gar st f ro po 0 i ev
+    = match or_infer po (gap f) with
+      | None => (st, RTypeError, [])
+      | Some p => match gar (Some f) ro with
+                  | None => (st, RTypeError, [])
+                  | Some q => registerSub W st f (map Some q) p 0 i ev
+                  end
+      end.
+  Proof.
+    unfold g_registerSubscriptionAdapter, registerSub, conv_req, or_infer. cbv beta iota zeta. cbn [Nat.eqb negb].
+    destruct po as [p|]; [|destruct (gap f) as [p|]; [|reflexivity]];
+      (destruct (gar (Some f) ro) as [q|]; [|reflexivity]); rewrite map_conv_some; destruct ev; reflexivity.
+  Qed.
+
+  Theorem g_registerHandler_inferred st f ro i ev :
+    g_registerHandler W gar st f ro 0 i ev
+    = match gar (Some f) ro with
+      | None => (st, RTypeError, [])
+      | Some q => registerHandler W st f (map Some q) 0 i ev
+      end.
+  Proof.
+    unfold g_registerHandler, registerHandler, conv_req. cbv beta iota zeta. cbn [Nat.eqb negb].
+    destruct (gar (Some f) ro) as [q|]; [|reflexivity]. rewrite map_conv_some. destruct ev; reflexivity.
+  Qed.
+
+  Theorem g_unregisterAdapter_inferred st f n :
+    g_unregisterAdapter W gap gar st (Some f) None None n
+    = match gap f with
+      | None => (st, RTypeError, [])
+      | Some p => match gar (Some f) None with
+                  | None => (st, RTypeError, [])
+                  | Some q => unregisterAdapter W st (Some f) (map Some q) p n
+                  end
+      end.
+  Proof.
+    unfold g_unregisterAdapter, unregisterAdapter, conv_req. cbv beta iota zeta.
+    destruct (gap f) as [p|]; [|reflexivity]. destruct (gar (Some f) None) as [q|]; [|reflexivity].
+    rewrite map_conv_some. destruct (aget akey_eqb (c_areg st) (q, p, n)) as [[of oi]|]; [|reflexivity].
+    cbn [fst snd]. destruct (negb (v_eq f of)); reflexivity.
+  Qed.
+End Inference.
